@@ -19,12 +19,14 @@ class Run(object):
         return [v for v, _ in (self.flow.returns if self.flow else [])]
 
 
-def analyse(chk, qual, build=None, atoms=(R, DT), self_cls=None, flags="cold", listeners=None):
+def analyse(chk, qual, build=None, atoms=(R, DT), self_cls=None, flags="cold", listeners=None, setup=None):
     """build(I, st, fi) -> dict of explicit abstract args (others: literal defaults)."""
     P = chk.P
     fi = P.fn(qual)
     I = Interp(P, listeners=listeners)
     I.atoms = set(atoms)
+    if setup:
+        setup(I)
     st = State()
     pos = []
     self_obj = None
